@@ -291,6 +291,25 @@ pub fn dump(a: &EmmyLuaAnalysis, queries: &[String]) -> BTreeMap<String, Vec<Str
         ms.sort();
         gm.push(format!("{n} len={len} members=[{}]", ms.join(",")));
     }
+    // members of the table / class a global declaration is bound to (`get_member_len`, `get_members` on the
+    // owner its type cache names): what `G.f` resolves against
+    let mut dm = Vec::new();
+    for id in db.get_global_index().get_all_global_decl_ids() {
+        let Some(d) = db.get_decl_index().get_decl(&id) else { continue };
+        let owner = match db.get_type_index().get_type_cache(&id.into()).map(|c| c.as_type().clone()) {
+            Some(emmylua_code_analysis::LuaType::TableConst(t)) => Some(LuaMemberOwner::Element(t)),
+            Some(emmylua_code_analysis::LuaType::Ref(t)) | Some(emmylua_code_analysis::LuaType::Def(t)) => Some(LuaMemberOwner::Type(t)),
+            _ => None,
+        };
+        if let Some(owner) = owner {
+            let len = db.get_member_index().get_member_len(&owner);
+            let mut ms: Vec<String> = db.get_member_index().get_members(&owner).unwrap_or_default().iter().map(|m| format!("{:?}@{}", m.get_key(), file_name(a, m.get_file_id()))).collect();
+            ms.sort();
+            dm.push(format!("{} {}@{} len={len} members=[{}]", d.get_name(), file_name(a, id.file_id), u32::from(id.position), ms.join(",")));
+        }
+    }
+    dm.sort();
+    out.insert("global-decl-members".into(), dm);
     out.insert("global-members".into(), gm);
     // types with locations, supers, members, docs
     let mut ts = Vec::new();
@@ -472,6 +491,17 @@ pub fn symptom_of(section: &str, a: &Option<String>, b: &Option<String>) -> Stri
     if section == "globals" {
         return "globals".into();
     }
+    if section == "global-decl-members" {
+        // `<name> <file>@<pos> len=<n> members=[key@file,…]`: only members of the declaring file itself appear /
+        // disappear (the `G = G or {}` member table) vs. anything involving another file's members
+        let own_only = |l: &Option<String>| -> bool {
+            let Some(l) = l else { return true };
+            let file = l.split_whitespace().nth(1).and_then(|x| x.split('@').next()).unwrap_or("").to_string();
+            let ms = l.split("members=[").nth(1).unwrap_or("").trim_end_matches(']');
+            ms.split(',').filter(|m| !m.is_empty()).all(|m| m.rsplit('@').next() == Some(file.as_str()))
+        };
+        return if own_only(a) && own_only(b) { "global-own-member-list".into() } else { "global-member-list".into() };
+    }
     if section == "global-members" {
         return "global-member-list".into();
     }
@@ -631,6 +661,31 @@ pub fn queries(files: &[(String, Vec<String>)]) -> Vec<String> {
     q.push("lib.f0".into());
     q.push("nope".into());
     q
+}
+
+/// a global table declared in one file (`G = {`) whose members (`G.x = …`, `function G.f(`, `G.a.b = …`) are
+/// contributed by another file of the case (any variant)
+pub fn foreign_members_of_global_table(c: &WsCase) -> bool {
+    let mut decl: BTreeMap<String, BTreeSet<usize>> = BTreeMap::new();
+    let mut contrib: BTreeMap<String, BTreeSet<usize>> = BTreeMap::new();
+    for (i, (_, vs)) in c.files.iter().enumerate() {
+        for v in vs {
+            for line in v.lines() {
+                let l = line.strip_prefix("function ").unwrap_or(line);
+                let name: String = l.chars().take_while(|c| c.is_alphanumeric() || *c == '_').collect();
+                if name.is_empty() || !name.starts_with('G') {
+                    continue;
+                }
+                let rest = &l[name.len()..];
+                if rest.starts_with(" = {") {
+                    decl.entry(name).or_default().insert(i);
+                } else if rest.starts_with('.') {
+                    contrib.entry(name).or_default().insert(i);
+                }
+            }
+        }
+    }
+    decl.iter().any(|(n, ds)| contrib.get(n).map(|cs| cs.iter().any(|i| !ds.contains(i))).unwrap_or(false))
 }
 
 /// a `---@class` doc block directly attached to `local x = require(...)`: the class is bound to another
